@@ -154,12 +154,55 @@ def _field_evidence(fn: ast.FunctionDef, field: str, kind: str, cfg: CFG | None 
     return len_nodes, elem_nodes, direct_nodes
 
 
+GATED: list[tuple[ast.AST, list[ast.AST]]] = []  # comparisons whose verdict only counts when a sibling condition holds
+
+
+def _gates(fn: ast.FunctionDef, node: ast.AST) -> list[ast.AST]:
+    """Sibling conditions that decide whether a mismatch found at `node` reaches the statement at all: in
+    `if A and not all(x == y ...)` the mismatch makes the second conjunct true, but the test is only true when A is.
+    Returns the siblings (A); a sibling that is false only when the compared sequences are empty is not a gate."""
+    from ..astutil import parent_map
+
+    pm = parent_map(fn)
+    n, neg, in_all = node, False, False
+    is_ne = isinstance(node, ast.Compare) and isinstance(node.ops[0], ast.NotEq)
+    out: list[ast.AST] = []
+    while id(n) in pm and not isinstance(pm[id(n)], ast.stmt):
+        p = pm[id(n)]
+        if isinstance(p, ast.UnaryOp) and isinstance(p.op, ast.Not):
+            neg = not neg
+        elif isinstance(p, ast.Call) and call_attr(p) == "all":
+            in_all = True
+        elif isinstance(p, (ast.GeneratorExp, ast.ListComp, ast.comprehension)):
+            pass
+        elif isinstance(p, ast.BoolOp):
+            val = neg if isinstance(node, ast.Call) else ((is_ne and not in_all and not neg) or ((not is_ne or in_all) and neg))
+            # at an `and`, a True operand leaves the decision to the siblings; at an `or`, a False operand does
+            if isinstance(p.op, ast.And) == val:
+                out += [v for v in p.values if v is not n]
+        n = p
+    vac = []
+    for g in out:
+        t = g
+        while isinstance(t, ast.UnaryOp) and isinstance(t.op, ast.Not):
+            t = t.operand
+        if isinstance(t, ast.Call) and call_attr(t) == "len" and t.args:
+            t = t.args[0]
+        if re.fullmatch(r"(self|other)\.\w+", unparse(t)):
+            vac.append(g)  # truthiness of one of the compared sequences: false only when there is nothing to compare
+    return [g for g in out if g not in vac]
+
+
 def _rejecting(fn: ast.FunctionDef, cfg: CFG, node: ast.AST) -> bool:
     """Does a mismatch detected at `node` lead to a False result?  Accepted shapes: the comparison is
     (part of) the test of an `if` whose taken branch is `return False` (a `!=` disjunct, `not all(==)`),
     sits in a for-loop body under such an `if`, or is a conjunct of the returned expression."""
     from ..astutil import parent_map
 
+    g = _gates(fn, node)
+    if g:
+        GATED.append((node, g))
+        return False
     flow = _rejecting_flow(fn, cfg, node)
     if flow is not None:
         return flow
@@ -300,6 +343,7 @@ def _check_fields(idx: Index, rep_rule, qual: str, fields: dict[str, str], modul
         inst = f"{f.fq}:{field}"
         se, oe = (exprs or {}).get(field, (None, None))
         ln, el, dr = _field_evidence(fn, field, kind, cfg, se, oe, _prop_tuples(f.cls))
+        ln0, el0, dr0 = list(ln), list(el), list(dr)
         ln = [n for n in ln if isinstance(n, ast.Call) or _rejecting(fn, cfg, n)]
         el = [n for n in el if _rejecting(fn, cfg, n)]
         dr = [n for n in dr if _rejecting(fn, cfg, n)]
@@ -310,6 +354,16 @@ def _check_fields(idx: Index, rep_rule, qual: str, fields: dict[str, str], modul
             need = [("length", ln + dr), ("elements", el + dr)]
         for what, nodes in need:
             if not nodes:
+                cand = set(map(id, ln0 + el0 + dr0))
+                gated = [(n_, g_) for n_, g_ in GATED if id(n_) in cand]
+                if gated:
+                    n_, g_ = gated[0]
+                    gt = unparse(g_[0])
+                    same_field = bool(re.search(r"\bself\." + re.escape(field) + r"\b", gt) and re.search(r"\bother\." + re.escape(field) + r"\b", gt))
+                    if same_field and "context" in unparse(n_):
+                        problems.append((f"{field}-comparison-gated", f"the comparison `{unparse(n_)[:90]}` only counts when `{gt[:80]}` holds: for two identical {field} sequences the correspondence recorded in the context is not consulted, so a value of the left IR that the context maps to a *different* value of the right IR is accepted when the right operation names the left value itself"))
+                        continue
+                    raise AnalysisError(f"{f.fq}: the comparison of `{field}` (`{unparse(n_)[:70]}`) is conditional on `{gt[:70]}`; whether that condition can hide a mismatch is not decided")
                 # comparisons of members this rule does not know (`self._key == other._key`, helper predicates taking
                 # both sides) may well cover the field: undecided rather than "not compared"
                 known_members = {fld for fld in fields} | {e_[0].split(".", 1)[1] for e_ in (exprs or {}).values()}
